@@ -127,7 +127,7 @@ func fsProvSim(r *simcore.Run) {
 		}
 		r.Logf("deliver %s %s", e.ev.Op, filepath.Base(e.ev.Name))
 		if err := p.ruleSetsChanged(e.ev); err != nil {
-			r.Logf("  provider reported: %v", firstLine(err.Error()))
+			r.Logf("  provider reported: %v", strings.ReplaceAll(firstLine(err.Error()), dir, "<dir>"))
 		}
 		return check("after " + e.ev.Op.String() + " " + filepath.Base(e.ev.Name))
 	}
